@@ -582,8 +582,18 @@ def pseq2 : P Seq2 := do
   let o ← (pN (do let f ← pbool; let d ← pfo; pure (f, d)) poses.length) <|> pure []
   pure ⟨k, a, b, pr, poses, o⟩
 
+/-- `approx::ulps_eq!(a, b)` on `f64` with the default `epsilon = f64::EPSILON`, `max_ulps = 4` -/
+def ulpsEqF (a b : Float) : Bool :=
+  if Float.abs (a - b) ≤ Float.ofBits 0x3CB0000000000000 then true
+  else if a.isNaN || b.isNaN then false
+  else if (a.toBits >>> 63) != (b.toBits >>> 63) then false
+  else
+    let x := a.toBits.toNat; let y := b.toBits.toNat
+    if x ≤ y then y - x ≤ 4 else x - y ≤ 4
+
 def seqGen2 (s : Seq2) (pos12 : Iso2 Float) (m : Manifold2 Float) : Manifold2 Float :=
   match s.kind with
+  | 5 => capsuleCapsule2 ulpsEqF pos12 ⟨0.0, -s.a.x⟩ ⟨0.0, s.a.x⟩ s.a.y ⟨0.0, -s.b.x⟩ ⟨0.0, s.b.x⟩ s.b.y s.pred m
   | 0 => ballBall2 pos12 s.a.x s.b.x s.pred m
   | 1 => convexBallShapes2 (cuboidProject2 s.a) false pos12 s.b.x s.pred m
   | 2 => convexBallShapes2 (cuboidProject2 s.b) true pos12 s.a.x s.pred m
@@ -598,6 +608,8 @@ inductive Sh2 where
   | cuboid (he : V2 Rat) (surf : Bool)
   | halfspace (n : V2 Rat)
   | triangle (a b c : V2 Rat)
+  /-- capsule with an arbitrary axis `a b` (the 2-D HeightField cells are such capsules with `r = 0`) -/
+  | capsule (a b : V2 Rat) (r : Rat)
 
 def seqShapes2 (s : Seq2) : Sh2 × Sh2 :=
   let a := q2 s.a; let b := q2 s.b
@@ -606,6 +618,7 @@ def seqShapes2 (s : Seq2) : Sh2 × Sh2 :=
   | 1 => (.cuboid a true, .ball b.x)
   | 2 => (.ball a.x, .cuboid b true)
   | 3 => (.halfspace a, .cuboid b false)
+  | 5 => (.capsule ⟨0, -a.x⟩ ⟨0, a.x⟩ a.y, .capsule ⟨0, -b.x⟩ ⟨0, b.x⟩ b.y)
   | _ => (.cuboid a false, .halfspace b)
 
 def cuboidDistSq2 (he p : V2 Rat) : Rat :=
@@ -636,6 +649,17 @@ def onShape2 (sh : Sh2) (p : V2 Rat) (tol : Rat) : Option String :=
   | .triangle a b c =>
     let d2 := triDistSq2 a b c p
     if leTol d2 0 tol then none else some s!"off-triangle d²={d2}"
+  | .capsule a b r =>
+    let d2 := segDistSq2 a b p
+    if leTol d2 (r * r) tol then none else some s!"outside-capsule d²={d2} r²={r*r}"
+
+/-- exact squared distance between two segments of the plane: 0 if they cross properly, else the smallest of the
+four endpoint-to-segment distances -/
+def segSegDistSq2 (a1 b1 a2 b2 : V2 Rat) : Rat :=
+  let o1 := (b1.sub a1).perp (a2.sub a1); let o2 := (b1.sub a1).perp (b2.sub a1)
+  let o3 := (b2.sub a2).perp (a1.sub a2); let o4 := (b2.sub a2).perp (b1.sub a2)
+  if o1 * o2 < 0 && o3 * o4 < 0 then 0
+  else min (min (segDistSq2 a1 b1 a2) (segDistSq2 a1 b1 b2)) (min (segDistSq2 a2 b2 a1) (segDistSq2 a2 b2 b1))
 
 def vertsCuboid2 (he : V2 Rat) : List (V2 Rat) := [⟨he.x, he.y⟩, ⟨-he.x, he.y⟩, ⟨he.x, -he.y⟩, ⟨-he.x, -he.y⟩]
 
@@ -653,10 +677,14 @@ def exactDist2 (sh : Sh2 × Sh2) (M : Iso2 Rat) : Rat :=
     if d2 > 0 then sq d2 - r else -(min (he.x - rabs c.x) (he.y - rabs c.y)) - r
   | (.halfspace n, .cuboid he _) => ((vertsCuboid2 he).map fun v => n.dot (M.act v)).foldl min (n.dot (M.act he))
   | (.cuboid he _, .halfspace n) => ((vertsCuboid2 he).map fun v => n.dot (M.invAct v)).foldl min (n.dot (M.invAct he))
+  | (.capsule a1 b1 r1, .capsule a2 b2 r2) => sq (segSegDistSq2 a1 b1 (M.act a2) (M.act b2)) - r1 - r2
+  | (.capsule a b r, .ball rb) => sq (segDistSq2 a b M.t) - r - rb
+  | (.ball rb, .capsule a b r) => sq (segDistSq2 (M.act a) (M.act b) V2.zero) - r - rb
   | _ => 0
 
 def manifoldOracle2 (sh : Sh2 × Sh2) (pos12 : Iso2 Float) (pred : Float) (m : Manifold2 Float)
-    (os : Option (Bool × Float)) (drift : Rat := 0) (exactKnown : Bool := true) : Option String :=
+    (os : Option (Bool × Float)) (drift : Rat := 0) (exactKnown : Bool := true)
+    (depthTol : Rat := 1 / 1000000) (capPred : Bool := true) : Option String :=
   if !(finm2 m) then some "nonfinite-output" else
   let M := qiso2 pos12
   let P := q pred
@@ -665,12 +693,22 @@ def manifoldOracle2 (sh : Sh2 × Sh2) (pos12 : Iso2 Float) (pred : Float) (m : M
   let tol : Rat := tolDefault
   let wtol : Rat := tol + drift * drift
   let D := exactDist2 sh M
+  let axesCross : Bool := match sh with
+    | (.capsule a1 b1 _, .capsule a2 b2 _) => segSegDistSq2 a1 b1 (M.act a2) (M.act b2) ≤ 1 / 1000000000000000000
+    | _ => false
   let deep : Option Rat := pts.foldl (fun acc c => match acc with | none => some c.dist | some d => some (min d c.dist)) none
   let presence : Option String :=
     if !exactKnown then none else
     match deep with
-    | none => if D < P - (1 / 1000000) * (1 + rabs D + rabs P) then some s!"no-contact-but-exact-dist={D}<prediction" else none
-    | some d => if !(close d D (1 / 1000000 : Rat)) then some s!"deepest={d} exact={D}" else none
+    | none => if D < P - depthTol * (1 + rabs D + rabs P) then some s!"no-contact-but-exact-dist={D}<prediction" else none
+    | some d =>
+      if close d D depthTol then none
+      -- capsule axes that intersect (exactly, or closer than 1e-9): the contact normal is then rounding noise or the y-axis
+      -- fallback, the first contact still reports −(r1+r2) like the one-shot query, but the second contact of the two-contact
+      -- branch measures the gap of the crossed axes along that normal and comes out deeper (its own verdict, a known finding)
+      else if axesCross && pts.length == 2 && (match pts.head? with | some c0 => close c0.dist D depthTol | none => false) then
+        some s!"capsule-axes-intersect-second-contact-deeper second={d} first-and-exact={D}"
+      else some s!"deepest={d} exact={D}"
   let oneshot : Option String :=
     match os, deep with
     | some (true, od), some d =>
@@ -696,20 +734,24 @@ def manifoldOracle2 (sh : Sh2 × Sh2) (pos12 : Iso2 Float) (pred : Float) (m : M
       | some r => some s!"p1-{r}"
       | none => match onShape2 sh.2 c.p2 wtol with
         | some r => some s!"p2-{r}"
-        | none => if !exactKnown || leTol c.dist P tol then none else some s!"dist={c.dist}>prediction"
+        | none => if !exactKnown || !capPred || leTol c.dist P tol then none else some s!"dist={c.dist}>prediction"
   match bad with
   | b :: _ => some b
   | [] => presence <|> oneshot
 
 def seqOracle2 (s : Seq2) (ms : List (Manifold2 Float)) : String :=
   if ms.length != s.poses.length then "fail wrong-number-of-calls" else
-  if s.kind > 4 then "skip unknown-kind" else
+  if s.kind > 5 then "skip unknown-kind" else
   let sh := seqShapes2 s
+  let cc := s.kind == 5
   let rec go : Nat → List (Iso2 Float) → List (Manifold2 Float) → Option String
     | _, [], _ => none
     | _, _, [] => none
     | i, p :: ps, m :: ms =>
-      match manifoldOracle2 sh p s.pred m (s.oneshot[i]?) with
+      -- capsule/capsule: the reference depth is the exact axis distance (the one-shot `contact` is unreliable on collinear
+      -- axes, C02); the second contact of the two-contact branch is not capped by the prediction
+      match (if cc then manifoldOracle2 sh p s.pred m none 0 true (1 / 100000) false
+             else manifoldOracle2 sh p s.pred m (s.oneshot[i]?)) with
       | some r => some s!"call={i} {r}"
       | none => go (i + 1) ps ms
   match go 0 s.poses ms with
@@ -788,6 +830,91 @@ def seqtOracle2 (s : SeqT2) (ms : List (Manifold2 Float)) : String :=
   | some r => s!"fail {r}"
   | none => "pass"
 
+/-! ### 2-D capsule / capsule called directly, and 2-D HeightField (cells = zero-radius capsules) through the dispatcher -/
+structure CC2 where
+  pos12 : Iso2 Float
+  a1 : V2 Float
+  b1 : V2 Float
+  r1 : Float
+  a2 : V2 Float
+  b2 : V2 Float
+  r2 : Float
+  pred : Float
+  m : Manifold2 Float
+def pcc2 : P CC2 := do
+  let p ← piso2; let a1 ← pv2; let b1 ← pv2; let r1 ← pf; let a2 ← pv2; let b2 ← pv2; let r2 ← pf; let pr ← pf; let m ← pman2
+  pure ⟨p, a1, b1, r1, a2, b2, r2, pr, m⟩
+
+/-- the property's per-manifold clauses on the real output of `contact_manifold_capsule_capsule`: at most two contacts, unit
+opposite normals, `dist` identity on EVERY contact, witnesses inside their capsules, a contact present iff the exact distance
+of the capsules (exact axis distance − radii) is below the prediction, and the deepest contact equal to that distance. -/
+def cc2Oracle (c : CC2) (m' : Manifold2 Float) : String :=
+  if m'.points.length > 2 then "fail more-than-two-contacts" else
+  let sh : Sh2 × Sh2 := (.capsule (q2 c.a1) (q2 c.b1) (q c.r1), .capsule (q2 c.a2) (q2 c.b2) (q c.r2))
+  match manifoldOracle2 sh c.pos12 c.pred m' none 0 true (1 / 100000) false with
+  | some r => s!"fail {r}"
+  | none => "pass"
+
+structure HF2 where
+  flipped : Bool
+  s2ty : Nat
+  q : V2 Float
+  pred : Float
+  poses : List (Iso2 Float)
+  /-- observed: the cells of the height field (`none` = removed) -/
+  cells : List (Option (V2 Float × V2 Float))
+def phf2 : P HF2 := do
+  let fl ← pbool
+  let _ ← plist pf
+  let _ ← pv2
+  let _ ← plist pnat
+  let t ← pnat; let qq ← pv2; let pr ← pf
+  let poses ← plist piso2
+  let cells ← (plist (do let t ← tok
+                         if t = "1" then do let a ← pov2; let b ← pov2; pure (some (a, b))
+                         else if t = "0" then pure none else failure)) <|> pure []
+  pure ⟨fl, t, qq, pr, poses, cells⟩
+def phfman : P (Nat × Nat × Manifold2 Float) := do let a ← pnat; let b ← pnat; let m ← poman2; pure (a, b, m)
+
+def hf2Oracle (c : HF2) (outs : List (List (Nat × Nat × Manifold2 Float))) : String :=
+  if outs.length != c.poses.length then "fail wrong-number-of-calls" else
+  let other : Sh2 := if c.s2ty == 0 then .ball (q c.q.x) else .capsule ⟨0, -(q c.q.x)⟩ ⟨0, q c.q.x⟩ (q c.q.y)
+  let P := q c.pred
+  let rec go (k : Nat) : List (Iso2 Float) → List (List (Nat × Nat × Manifold2 Float)) → Option String
+    | [], _ => none
+    | _, [] => none
+    | p :: ps, ms :: rest =>
+      let ids := ms.map fun (s1, s2, _) => if c.flipped then s2 else s1
+      let zeros := ms.map fun (s1, s2, _) => if c.flipped then s1 else s2
+      if zeros.any (· != 0) then some s!"call={k} malformed-label" else
+      if !ids.Nodup then some s!"call={k} two-manifolds-for-one-cell {ids}" else
+      let M := qiso2 p
+      let cellSh (i : Nat) : Option Sh2 := match c.cells[i]? with
+        | some (some (a, b)) => some (.capsule (q2 a) (q2 b) 0)
+        | _ => none
+      let pairOf (cs : Sh2) : Sh2 × Sh2 := if c.flipped then (other, cs) else (cs, other)
+      -- every manifold: a present cell, and all geometric clauses of the property
+      let bad := ms.findSome? fun (s1, s2, m) =>
+        let i := if c.flipped then s2 else s1
+        match cellSh i with
+        | none => some s!"call={k} manifold-for-absent-cell {i}"
+        | some cs => (manifoldOracle2 (pairOf cs) p c.pred m none 0 true (1 / 100000) false).map fun r => s!"call={k} cell={i} {r}"
+      match bad with
+      | some r => some r
+      | none =>
+        -- every cell closer than the prediction has its manifold
+        let missing := (List.range c.cells.length).filter fun i =>
+          match cellSh i with
+          | none => false
+          | some cs =>
+            let D := exactDist2 (pairOf cs) M
+            D < P - (1 / 100000) * (1 + rabs D + rabs P) && !ids.contains i
+        if !missing.isEmpty then some s!"call={k} no-manifold-for-cells-within-prediction {missing}"
+        else go (k + 1) ps rest
+  match go 0 c.poses outs with
+  | some r => s!"fail {r}"
+  | none => "pass"
+
 def handler (fn : String) : Option Handler :=
   match fn with
   | "tuc3" => some {
@@ -862,6 +989,16 @@ def handler (fn : String) : Option Handler :=
       model := fun a => run (do let s ← pseq2; pure (seqModel2 s)) a
       oracle := fun a o => match run pseq2 a with
         | some s => withOut (pN poman2 s.poses.length) o (seqOracle2 s)
+        | none => "skip bad-args" }
+  | "cc2" => some {
+      model := fun a => run (do let c ← pcc2; pure (fman2 (capsuleCapsule2 ulpsEqF c.pos12 c.a1 c.b1 c.r1 c.a2 c.b2 c.r2 c.pred c.m))) a
+      oracle := fun a o => match run pcc2 a with
+        | some c => withOut poman2 o (cc2Oracle c)
+        | none => "skip bad-args" }
+  | "hf2" => some {
+      model := fun _ => some "oracle-only"
+      oracle := fun a o => match run phf2 a with
+        | some c => withOut (pN (plist phfman) c.poses.length) o (hf2Oracle c)
         | none => "skip bad-args" }
   | "seq3t" => some {
       model := fun _ => some "oracle-only"
